@@ -1385,7 +1385,22 @@ def pretty_dict(d, ctx, trailing_comment=None):
     for k in take(ctx.max_seq_len, sorted_keys):
         v = d[k]
 
-        if isinstance(k, (str, bytes)):
+        if isinstance(k, (str, bytes)) and type(k) not in (str, bytes):
+            # A str / bytes subclass with a printer of its own (possibly
+            # still registered by name only) is printed by that printer,
+            # like any other key.
+            is_registered(
+                type(k),
+                check_superclasses=True,
+                check_deferred=True,
+                register_deferred=True
+            )
+
+        if (
+            isinstance(k, (str, bytes)) and
+            pretty_dispatch.dispatch(type(k)) is
+            pretty_dispatch.dispatch(str if isinstance(k, str) else bytes)
+        ):
             kdoc = pretty_str(
                 k,
                 # not a nested call on purpose
